@@ -6,6 +6,7 @@ use serde::{de::DeserializeOwned, Serialize};
 use serde_json::Value;
 use std::collections::BTreeMap;
 
+pub mod c04;
 pub mod c15;
 pub mod c18;
 pub mod c19;
@@ -61,6 +62,10 @@ pub trait Prop {
 macro_rules! with_prop {
     ($id:expr, $P:ident => $body:expr) => {
         match $id {
+            "C04" => {
+                type $P = $crate::props::c04::C04;
+                Some($body)
+            }
             "C15" => {
                 type $P = $crate::props::c15::C15;
                 Some($body)
